@@ -67,7 +67,9 @@ def describe(cfg):
     if cfg.get("np"):
         d += " [integer arguments as numpy.int64]"
     if cfg.get("iter"):
-        d += " [driven through iter(schedule)]"
+        d += " [driven through iter(schedule)]" if cfg["iter"] is True else " [driven by one `for action in schedule` loop per phase, left with break]"
+    if cfg.get("style"):
+        d += " [call style: %s]" % STYLES[cfg["style"]]
     return d
 
 
@@ -92,11 +94,82 @@ def _describe(cfg):
     return "%s(%d,%d,%s)" % (c, cfg["n"], cfg["s"], cs)
 
 
+STYLES = {"kw": "every argument by keyword", "dflt": "arguments equal to the signature default omitted",
+          "ci": "integral costs as Python ints", "npf": "costs as numpy.float64"}
+
+
+def call_args(cfg):
+    """(class name, positional args, keyword args) of the documented constructor call for a config,
+    all arguments explicit, in the documented order / by the documented names."""
+    from . import lib
+    ST = lib.ST
+    c = cfg["cls"]
+    if c == "None":
+        return "NoneCheckpointSchedule", [], {}
+    if c == "SingleMemory":
+        return "SingleMemoryStorageSchedule", [], {}
+    if c == "SingleDisk":
+        return "SingleDiskStorageSchedule", [("move_data", cfg["move"])], {}
+    if c == "Multistage":
+        return "MultistageCheckpointSchedule", [("max_n", cfg["n"]), ("snapshots_in_ram", cfg["ram"]), ("snapshots_on_disk", cfg["disk"])], {"trajectory": cfg["traj"]}
+    if c == "Mixed":
+        return "MixedCheckpointSchedule", [("max_n", cfg["n"]), ("snapshots", cfg["s"])], {"storage": ST[cfg["storage"]]}
+    if c == "TwoLevel":
+        return "TwoLevelCheckpointSchedule", [("period", cfg["period"]), ("binomial_snapshots", cfg["b"])], {
+            "binomial_storage": ST[cfg["storage"]], "binomial_trajectory": cfg["traj"]}
+    uf, ub, wd, rd = costs(cfg)
+    if cfg.get("style") == "ci":
+        uf, ub, wd, rd = [int(x) if float(x).is_integer() else x for x in (uf, ub, wd, rd)]
+    if cfg.get("style") == "npf":
+        import numpy as np
+        uf, ub, wd, rd = [np.float64(x) for x in (uf, ub, wd, rd)]
+    pos = [("max_n", cfg["n"]), ("snapshots_in_ram", cfg["s"])]
+    if c == "HRevolve":
+        pos.append(("snapshots_on_disk", cfg["d"]))
+    pos += [("uf", uf), ("ub", ub), ("wd", wd), ("rd", rd)]
+    return c, pos, {}
+
+
+def build_styled(cfg):
+    klass, a, k = styled_call(cfg)
+    return klass(*a, **k)
+
+
+def styled_call(cfg):
+    """Other ways of writing the same constructor call (the parameters are equal, so by C15 and by
+    every stream property the outcome must be the same): all keywords; defaults omitted, where the
+    default is read from the live signature, so a changed default is not this check's business."""
+    import inspect
+    from . import lib
+    name, pos, kw = call_args(cfg)
+    klass = getattr(lib.cs, name)
+    style = cfg["style"]
+    if style == "kw":
+        kw = dict(kw)
+        kw.update(dict(pos))
+        return klass, [], kw
+    if style == "dflt":
+        params = inspect.signature(klass.__init__).parameters
+        def is_default(k, v):
+            d = params[k].default if k in params else inspect.Parameter.empty
+            return d is not inspect.Parameter.empty and isinstance(d, bool) == isinstance(v, bool) and d == v
+        kw = {k: v for k, v in kw.items() if not is_default(k, v)}
+        # trailing positional arguments only (an omitted middle one would shift the rest): pass the
+        # remaining optional ones by keyword
+        req = [(k, v) for k, v in pos if k not in params or params[k].default is inspect.Parameter.empty]
+        opt = [(k, v) for k, v in pos if (k, v) not in req]
+        kw.update({k: v for k, v in opt if not is_default(k, v)})
+        return klass, [v for _, v in req], kw
+    return klass, [v for _, v in pos], kw
+
+
 def build(cfg):
     """Config -> live schedule object (library exceptions propagate)."""
     from . import lib
     cs, ST = lib.cs, lib.ST
     c = cfg["cls"]
+    if cfg.get("style"):
+        return build_styled(cfg)
     if cfg.get("np"):
         # integer arguments passed as NumPy integers (e.g. taken from an array shape)
         import numpy as np
@@ -459,6 +532,29 @@ def numpy_typed_box(tier):
             yield c
 
 
+def call_style_box(tier):
+    """Every class constructed the other documented ways: all arguments by keyword, arguments that
+    equal the signature default omitted, integral costs as Python ints, costs as numpy.float64."""
+    N = 7 if tier == "quick" else 14
+    for n in range(1, N + 1):
+        base = [{"cls": "SingleDisk", "move": False, "n": n, "passes": 2}, {"cls": "SingleDisk", "move": True, "n": n, "passes": 1},
+                {"cls": "Multistage", "n": n, "ram": 1, "disk": 1, "traj": "maximum", "passes": 1},
+                {"cls": "Multistage", "n": n, "ram": 2, "disk": 0, "traj": "revolve", "passes": 1},
+                {"cls": "Mixed", "n": n, "s": 2, "storage": "RAM", "passes": 1},
+                {"cls": "Mixed", "n": n, "s": 1, "storage": "DISK", "passes": 1},
+                {"cls": "TwoLevel", "period": 3, "b": 1, "storage": "RAM", "traj": "maximum", "n": n, "passes": 2},
+                {"cls": "TwoLevel", "period": 2, "b": 2, "storage": "DISK", "traj": "revolve", "n": n, "passes": 2},
+                {"cls": "TwoLevel", "period": 2, "b": 1, "storage": "DISK", "traj": "maximum", "n": n, "passes": 1}]
+        for c8 in ([8, 8, 16, 16], [8, 8, 16, 8], [8, 24, 16, 16], [16, 8, 0, 16], [8, 8, 8, 0], [24, 8, 40, 16]):
+            base += [{"cls": "Revolve", "n": n, "s": 2, "c8": c8, "passes": 1},
+                     {"cls": "DiskRevolve", "n": n, "s": 1, "c8": c8, "passes": 1},
+                     {"cls": "PeriodicDiskRevolve", "n": n, "s": 1, "c8": c8, "passes": 1},
+                     {"cls": "HRevolve", "n": n, "s": 1, "d": 2, "c8": c8, "passes": 1}]
+        for c in base:
+            for st in ("kw", "dflt") + (("ci", "npf") if "c8" in c else ()):
+                yield dict(c, style=st)
+
+
 def iter_driver_box(tier):
     """Every class driven the `for action in schedule` way: it = iter(schedule) first, observers read
     before the first action is requested, then next(it)."""
@@ -470,6 +566,7 @@ def iter_driver_box(tier):
             yield c
             if c["cls"] in ("SingleMemory", "SingleDisk", "TwoLevel", "None") and c["n"] <= 3:
                 yield dict(c, late=2)
+            yield dict(c, iter="loops")
 
 
 def deep_repeat_probes(tier):
@@ -594,10 +691,11 @@ def _candidates(cfg):
                     d["c8"] = list(cfg["c8"])
                     d["c8"][i] = nv
                     yield d
-    if cfg.get("numba"):
-        d = dict(cfg)
-        d.pop("numba")
-        yield d
+    for flag in ("numba", "style", "np", "iter"):
+        if cfg.get(flag):
+            d = dict(cfg)
+            d.pop(flag)
+            yield d
 
 
 SHRINK_WALL_S = 150
